@@ -229,6 +229,7 @@ loop:
 
 		case err := <-s.lc.ShutdownRequest():
 			s.lc.ShutdownInitiated(err)
+			s.vtrace("shutdown")
 			break loop
 
 		case ev := <-s.sub.Events():
@@ -297,12 +298,14 @@ loop:
 			delete(s.watchdogs, leaseID)
 		}
 		s.updateGauges()
+		s.vtrace("iter")
 	}
 
 	for len(s.managers) > 0 {
 		manager := <-s.managerch
 		delete(s.managers, dquery.DeploymentPath(manager.daddr))
 		s.updateGauges()
+		s.vtrace("drain")
 	}
 
 	s.session.Log().Debug("draining watchdogs", "qty", len(s.watchdogs))
